@@ -55,7 +55,7 @@ func lastStepRow(r *run, step int) int {
 
 // crashPass: every history with minLen..maxLen symbols that ends in an FS-touching call; the crash
 // points of the *last* symbol are enumerated (those of earlier symbols belong to the shorter history).
-func (c *checker) crashPass(name string, base bool, maxLen int, workers int) {
+func (c *checker) crashPass(name string, base baseKind, maxLen int, workers int) {
 	t0 := time.Now()
 	rec0, img0 := c.recoveries.Load(), c.images.Load()
 	total, doneLen := 0, 0
@@ -110,7 +110,7 @@ func (c *checker) crashPass(name string, base bool, maxLen int, workers int) {
 
 // faultPass: every history (ending in an FS-touching call) x every FS call of the history failing
 // once with EIO (x partial-write mode for writes); then an epilogue batch + clean restart.
-func (c *checker) faultPass(name string, base bool, maxLen int, workers int) {
+func (c *checker) faultPass(name string, base baseKind, maxLen int, workers int) {
 	t0 := time.Now()
 	rec0, img0, fr0 := c.recoveries.Load(), c.images.Load(), c.faultRuns.Load()
 	total, doneLen := 0, 0
@@ -212,7 +212,7 @@ func (c *checker) bigBatchPass(workers int) {
 	}
 	var jobs []job
 	for _, hs := range bigBatchHistories {
-		r := c.execute(parseHist(hs), false, -1, 0, false)
+		r := c.execute(parseHist(hs), baseNone, -1, 0, false)
 		c.histories.Add(1)
 		if n := int64(r.fs.NumOps()); n > c.maxOps.Load() {
 			c.maxOps.Store(n)
@@ -267,22 +267,36 @@ func TestCheck(t *testing.T) {
 
 	// the empty log itself: recovery of the empty directory and of the images of the first open
 	{
-		r0 := c.execute(nil, false, -1, 0, false)
+		r0 := c.execute(nil, baseNone, -1, 0, false)
 		c.crashCheck(r0, 0, len(r0.rows), func(*row) crashfs.Options { return crashfs.Full }, contWanted)
 	}
 	// order: the passes are independent; the largest one (crash, by increasing length) runs last so that a
 	// time cap only ever cuts the longest histories
 	if baseCrashLen > 0 {
-		c.crashPass("base255_crash", true, baseCrashLen, workers)
+		c.crashPass("base255_crash", basePrune255, baseCrashLen, workers)
 	}
 	if baseFaultLen > 0 {
-		c.faultPass("base255_fault", true, baseFaultLen, workers)
+		c.faultPass("base255_fault", basePrune255, baseFaultLen, workers)
 	}
-	c.faultPass("fault", false, faultLen, workers)
-	if envInt("C14_BIGBATCH", ev.Pick(r, 0, 1)) > 0 {
+	// block boundary: the batches of the history are written across the first 32 KiB block boundary of the
+	// log file (fragmented record / block padding), for several alignments (one per filler entry kind)
+	fillKinds := envInt("C14_FILL_KINDS", ev.Pick(r, 1, 5))
+	fillLen := envInt("C14_FILL_LEN", ev.Pick(r, 2, 3))
+	for k := 0; k < fillKinds; k++ {
+		kind := (k + 1) % 5 // quick: kind 1 (68 bytes left in the block)
+		c.crashPass(fmt.Sprintf("blockfill%d_crash", kind), baseFill0+baseKind(kind), fillLen, workers)
+	}
+	if fl := envInt("C14_FILL_FAULT_LEN", ev.Pick(r, 0, 2)); fl > 0 {
+		c.faultPass("blockfill1_fault", baseFill0+1, fl, workers)
+	}
+	c.faultPass("fault", baseNone, faultLen, workers)
+	// off by default: a torn tail inside a large record makes pebble's reader search for a single bit flip
+	// (CRC of the chunk for every bit: ~4 ms for a 4 KB chunk, ~0.3 s for a 32 KB chunk), which makes
+	// byte-granular enumeration of a multi-block batch impractical; fragmentation is covered by blockfill.
+	if envInt("C14_BIGBATCH", 0) > 0 {
 		c.bigBatchPass(workers)
 	}
-	c.crashPass("crash", false, crashLen, workers)
+	c.crashPass("crash", baseNone, crashLen, workers)
 
 	rec := c.recoveries.Load()
 	r.Set("evaluations", rec+c.faultRuns.Load()+c.histories.Load())
